@@ -203,7 +203,21 @@ def split_top(s, sep=","):
     return out
 
 
+PROMOTED = {}
+
+
+def parse_promoted(text):
+    """`const <fn path>::promoted[k]: &T = { ... _1 = VALUE; _0 = &_1; ... }` -> {(fn path, k): VALUE text}"""
+    PROMOTED.clear()
+    for m in re.finditer(r"^const ([^\n]*)::promoted\[(\d+)\]: [^\n]* = \{\n(.*?)^\}", text, re.S | re.M):
+        body = m.group(3)
+        mm = re.search(r"^\s+_1 = (.*);$", body, re.M)
+        if mm:
+            PROMOTED[(m.group(1), int(m.group(2)))] = mm.group(1).strip()
+
+
 def parse_functions(text):
+    parse_promoted(text)
     fns = {}
     lines = text.splitlines()
     k = 0
@@ -656,6 +670,11 @@ class Ctx:
             m = re.match(r'^b"(.*)"$', c)
             if m:
                 return Bytes(decode_bytes(m.group(1)))
+            m = re.match(r"^.*::promoted\[(\d+)\]$", c)
+            if m:
+                v = PROMOTED.get((fr["fn"].name, int(m.group(1))))
+                if v is not None:
+                    return Opaque("promoted:" + v)
             return Opaque(c)
         raise Unsupported("operand: " + s)
 
